@@ -173,7 +173,12 @@ def _case(vals, acc):
         acc.fail('argument-returned', {'argument': before_repr}, {'spec_repr': repr(spec), 'mask': mask})
         return
     try:
+        got['scribbled-by-the-first-caller'] = 1      # the result belongs to the caller
+        for v in got.values():
+            if isinstance(v, dict):
+                v['scribbled'] = 2
         again = strutils.mask_dict_password(arg, mask)
+        got = again                                    # compare the fresh answer below
     except Exception as e:
         again = ('raises', type(e).__name__)
     if again != got or compare(again, want, arg):
